@@ -159,6 +159,25 @@ theorem checkNoticeOrigin_ext (cfg : Cfg) (a : A) (rd : Option Read) (evs : List
     · exact errExt_err _ _ _ _ (by simp)
     · exact ErrExt.refl _ _
 
+
+theorem checkLoggerWaited_ext (cfg : Cfg) (a : A) (rd : Read) (evs : List Ev) :
+    ErrExt ["C14"] a (checkLoggerWaited cfg a rd evs) := by
+  unfold checkLoggerWaited
+  split
+  · exact ErrExt.refl _ _
+  · dsimp only
+    split
+    · exact ErrExt.refl _ _
+    · exact errExt_foldl _ _ (fun x y => errExt_chk _ _ _ _ _ (by simp)) _ _
+
+/-- what `roundBody.go` does to the abstract state before it hands it to `segment`: the two C14 checks on the events of
+    the frame -/
+def preSeg (cfg : Cfg) (a : A) (rd : Read) (evs : List Ev) : A :=
+  checkLoggerWaited cfg (checkNoticeOrigin cfg a (some rd) evs) rd evs
+
+theorem preSeg_ext (cfg : Cfg) (a : A) (rd : Read) (evs : List Ev) : ErrExt ["C14"] a (preSeg cfg a rd evs) :=
+  (checkNoticeOrigin_ext cfg a (some rd) evs).trans (checkLoggerWaited_ext cfg _ rd evs)
+
 theorem checkNoNotice_ext (cfg : Cfg) (a : A) (all : List Ev) : ErrExt ["C14"] a (checkNoNoticeAboutNotices cfg a all) := by
   unfold checkNoNoticeAboutNotices
   exact errExt_chk _ _ _ _ _ (by simp)
@@ -873,7 +892,7 @@ theorem checkConnect_cases_c06 (cfg : Cfg) (a : A) (u : Nat) (m : AMod) (h : Hdr
     (hok : ¬(ackSends evs = [] ∧ a.failing u = true) → ∀ nm, (reqOf cfg m h a.buf).name = some nm →
       ConnOK cfg a u (reqOf cfg m h a.buf) nm evs)
     (hname : (reqOf cfg m h a.buf).name = none → ackSends evs = []) :
-    ∃ Y, ErrExt ["C07"] a Y ∧
+    ∃ Y, ErrExt [] a Y ∧
       ((checkConnect cfg a u m h evs = (Y, none) ∧ ackSends evs = [] ∧ a.failing u = true) ∨
        (checkConnect cfg a u m h evs = (Y, some false) ∧ (ackSends evs = [] ∨ (reqOf cfg m h a.buf).name = none) ∧
           ¬(ackSends evs = [] ∧ a.failing u = true)) ∨
@@ -906,15 +925,13 @@ theorem checkConnect_cases_c06 (cfg : Cfg) (a : A) (u : Nat) (m : AMod) (h : Hdr
         by_cases hid : (r.modId != 0) = true
         · simp only [hid, if_true] at hc ⊢
           have hmay := hc.2 hnil
-          refine ⟨?Y1, ?hE1, Or.inr (Or.inl ⟨?hEq1, Or.inl hnil, hnf⟩)⟩
+          refine ⟨a, ErrExt.refl _ _, Or.inr (Or.inl ⟨?hEq1, Or.inl hnil, hnf⟩)⟩
           case hEq1 =>
-            rw [chk_of a _ "C06" _ (by simp), chk_of a _ "C06" _ (by simp [hmay])]
-          case hE1 => exact errExt_chk _ _ _ "C07" _ (by simp)
+            rw [chk_of a _ "C06" _ (by simp), chk_of a _ "C06" _ (by simp [hmay]), chk_of a _ "C07" _ (by simp [hmay])]
         · simp only [hid, Bool.false_eq_true, if_false] at hc ⊢
           have hfull := hc.2 hnil
-          refine ⟨?Y2, ?hE2, Or.inr (Or.inl ⟨?hEq2, Or.inl hnil, hnf⟩)⟩
-          case hEq2 => rw [chk_of a _ "C06" _ hfull]
-          case hE2 => exact errExt_chk _ _ _ "C07" _ (by simp)
+          refine ⟨a, ErrExt.refl _ _, Or.inr (Or.inl ⟨?hEq2, Or.inl hnil, hnf⟩)⟩
+          case hEq2 => rw [chk_of a _ "C06" _ hfull, chk_of a _ "C07" _ (by simp [hfull])]
     · -- accepted
       have hne : ackSends evs ≠ [] := fun e => hemp (List.isEmpty_iff.mpr e)
       have hemp' : (ackSends evs).isEmpty = false := by simpa using hemp
@@ -927,11 +944,10 @@ theorem checkConnect_cases_c06 (cfg : Cfg) (a : A) (u : Nat) (m : AMod) (h : Hdr
         by_cases hid : (r.modId != 0) = true
         · simp only [hid, if_true] at hc ⊢
           have hmust := hc.1 hne
-          refine ⟨?Y3, ?hE3, Or.inr (Or.inr ⟨nm, rfl, hne, ?hEq3⟩)⟩
+          refine ⟨a, ErrExt.refl _ _, Or.inr (Or.inr ⟨nm, rfl, hne, ?hEq3⟩)⟩
           case hEq3 =>
-            rw [chk_of a _ "C06" _ (by simp [hmust]), chk_of a _ "C06" _ (by simp)]
+            rw [chk_of a _ "C06" _ (by simp [hmust]), chk_of a _ "C06" _ (by simp), chk_of a _ "C07" _ (by simp)]
             unfold connId; simp only [hid, if_true]; rfl
-          case hE3 => exact errExt_chk _ _ _ "C07" _ (by simp)
         · simp only [hid, Bool.false_eq_true, if_false] at hc ⊢
           obtain ⟨hrange, hfree⟩ := hc.1 hne
           cases hh : (ackSends evs).head? with
@@ -955,7 +971,7 @@ theorem segment_connect_cases_c06 (cfg : Cfg) (a : A) (rd : Read) (evs : List Ev
       (reqOf cfg m rd.h (afterBuf cfg a rd).buf).name = some nm →
       ConnOK cfg (afterBuf cfg a rd) rd.uid (reqOf cfg m rd.h (afterBuf cfg a rd).buf) nm evs)
     (hname : (reqOf cfg m rd.h (afterBuf cfg a rd).buf).name = none → ackSends evs = []) :
-    ∃ Y, ErrExt ["C07"] (afterBuf cfg a rd) Y ∧
+    ∃ Y, ErrExt [] (afterBuf cfg a rd) Y ∧
       (((ackSends evs = [] ∨ (reqOf cfg m rd.h (afterBuf cfg a rd).buf).name = none) ∧
         (ackSends evs = [] → ∃ W, segment cfg a rd evs = applyDepartures W evs ∧
           (((afterBuf cfg a rd).failing rd.uid = true ∧ W = checkDepartures cfg Y (some rd.uid) evs) ∨
